@@ -101,47 +101,7 @@ def _names(ctx, f):
     return U, s_, VH, c0, c1
 
 
-class STok:
-    """opaque block with a concrete shape: slicing, reshape and products keep track of shapes and provenance"""
-
-    _abstract = True
-
-    def __init__(self, term, shape):
-        self.term = term
-        self.shape = tuple(shape)
-
-    @property
-    def size(self):
-        n = 1
-        for d in self.shape:
-            n *= d
-        return n
-
-    def __getitem__(self, k):
-        ks = k if isinstance(k, tuple) else (k,)
-        shape = []
-        for d, sl in zip(self.shape, ks):
-            if isinstance(sl, slice):
-                shape.append(len(range(*sl.indices(d))))
-            else:
-                raise TypeError("integer index on an abstract block")
-        shape += list(self.shape[len(ks):])
-        return STok(("slice", self.term, tuple((sl.start, sl.stop, sl.step) for sl in ks)), shape)
-
-    def reshape(self, shape):
-        return STok(("reshape", self.term, tuple(shape)), [self.size if d == -1 else d for d in shape])
-
-    def __mul__(self, o):
-        return STok(("mul", self.term, getattr(o, "term", o)), self.shape)
-
-    def __eq__(self, o):
-        return isinstance(o, STok) and self.term == o.term and self.shape == o.shape
-
-    def __hash__(self):
-        return hash((self.term, self.shape))
-
-    def __repr__(self):
-        return f"STok{self.term}{self.shape}"
+from engine.absarray import STok  # noqa: E402
 
 
 def check_truncation_semantics(prog, ctx):
